@@ -658,7 +658,7 @@ func (s *Sim) checkRecheck(t *Trigger, c *Client, rid string) {
 			return
 		}
 	}
-	if c.DeletedSeen[rid] {
+	if h := c.Cache[rid]; c.DeletedSeen[rid] || (h != nil && (h.Deleted || h.Ambiguous)) {
 		// the client has been told that the resource is deleted: the gateway has
 		// no subscription left to re-check (what it still sends of such a resource
 		// is the subject of C02)
